@@ -118,6 +118,10 @@ fn main() {{
     for k in 0..(n * 10) as i64 {{
         bs.insert(k * k - 50);
     }}
+    // every fill level of leaves and of the root: maps of 0..=100 keys inserted in order
+    let bm_sizes: Vec<BTreeMap<u16, u16>> = (0..=100u16).map(|k| (0..k).map(|i| (i, i.wrapping_mul(i))).collect()).collect();
+    // every fill level of the hash table groups: sets of 0..=40 keys
+    let hs_sizes: Vec<HashSet<u16>> = (0..=40u16).map(|k| (0..k).map(|i| i * 3).collect()).collect();
     let bx: Box<(u8, i32)> = Box::new((9, -9));
     let rc: Rc<u64> = Rc::new(123456789012);
     let rc2 = rc.clone();
@@ -163,7 +167,7 @@ fn main() {{
     println!("DBG tup={{:?}}", tup);
     println!("DBG n={{:?}}", n);
     println!("DBG g={{:?}}", g);
-    println!("{{r}} {{ka}} {{}} {{}} {{}} {{}} {{}} {{}} {{}} {{}} {{}} {{}} {{}} {{}} {{}} {{}} {{}} {{}} {{}} {{}} {{:?}} {{:?}} {{:?}} {{:?}} {{:?}} {{}}", s_ascii, s_utf8, s_empty.len(), v_i32.len(), v_empty.len(), v_cap.len(), vv.len(), v_str.len(), vd.len(), hm.len(), hs.len(), bm.len(), bs.len(), bx.0, rc2, arc, cell.get(), bm_tup.len() + hm_tup.len() + hm_key.len() + hm_del.len() + hs_del.len() + bm_del.len() + vd_del.len(), rcell, opt_s, opt_none, sl, tup, n);
+    println!("{{r}} {{ka}} {{}} {{}} {{}} {{}} {{}} {{}} {{}} {{}} {{}} {{}} {{}} {{}} {{}} {{}} {{}} {{}} {{}} {{}} {{:?}} {{:?}} {{:?}} {{:?}} {{:?}} {{}}", s_ascii, s_utf8, s_empty.len(), v_i32.len(), v_empty.len(), v_cap.len(), vv.len(), v_str.len(), vd.len(), hm.len(), hs.len(), bm.len(), bs.len(), bx.0, rc2, arc, cell.get(), bm_tup.len() + hm_tup.len() + hm_key.len() + hm_del.len() + hs_del.len() + bm_del.len() + vd_del.len() + bm_sizes.len() + hs_sizes.len(), rcell, opt_s, opt_none, sl, tup, n);
 }}
 "#
     )
@@ -262,6 +266,8 @@ fn expected(n: u64) -> Vec<(&'static str, Value, &'static str)> {
         ("vd_del", json!((15..20u64).chain(100..110).map(s).collect::<Vec<_>>()), "VecDeque<u8"),
         ("bm", map_of((0..n * 10).map(|k| json!([s(k * 3), {"s": if k % 2 == 0 { "even" } else { "odd" }}])).collect()), "BTreeMap<u32, &str"),
         ("bs", set_of((0..ni * 10).map(|k| s(k * k - 50)).collect()), "BTreeSet<i64"),
+        ("bm_sizes", json!((0..=100u64).map(|k| map_of((0..k).map(|i| json!([s(i), s((i * i) % 65536)])).collect())).collect::<Vec<_>>()), "Vec<alloc::collections::btree::map::BTreeMap<u16, u16"),
+        ("hs_sizes", json!((0..=40u64).map(|k| set_of((0..k).map(|i| s(i * 3)).collect())).collect::<Vec<_>>()), "Vec<std::collections::hash::set::HashSet<u16"),
         ("cell", s(-8), ""),
         ("opt_s", json!({"variant": "Some", "value": [["__0", {"s": "some"}]]}), "Option<alloc::string::String>"),
         ("opt_none", json!({"variant": "None", "value": []}), "Option<alloc::string::String>"),
